@@ -178,6 +178,21 @@ CHECKS = {
   design_ref="DESIGN.md 3.11, 6 (C17)",
   note="Trusted: TLC, helpers; the meaning of the 7 values is tabulated in the driver.",
   technique="TLA+ alias table model; TLC-simulated histories replayed on the binary incl. listing round trip through a fresh shell"),
+ "C18": dict(
+  category="model_checking",
+  text="spec/History.tla models the shared table as a sequence of rows with Add / Typed (skip rules: leading blank, repeat of the "
+       "line recorded last) / List / Search / Delete over opaque texts, patterns and directory names; TLC checks append-only-"
+       "except-delete, unique ids and order on every history of 5 operations and simulates histories of 14 operations. Each "
+       "history is executed against real shell processes sharing one database (fresh `cicada -c` processes running history add / "
+       "list / search / delete in directories named plain, d'q, d%p; typed lines through a pty session), an independent SQLite "
+       "client records the rows after every operation, and TLC validates every recorded history against spec/TraceHistory.tla: "
+       "each operation must transform the table as the model prescribes (exactly one appended row with the text unchanged, no "
+       "change on list / search, exactly the named rows removed), listings of a fresh process must show every row in order, "
+       "searches must succeed and contain every literal match.",
+  design_ref="DESIGN.md 3.11, 6 (C18)",
+  note="Trusted: TLC, Python's sqlite3 as independent reader, the pty driver; HISTORY_DELETE_DUPS=0 (documented start-up "
+       "de-duplication switched off); % and _ are wildcards in searches.",
+  technique="TLA+ table model; recorded multi-process histories (row snapshots by an independent SQLite client) validated by TLC"),
  "C06": dict(
   category="model_checking",
   text="TLC explores every interleaving of child status changes (with Linux's report coalescing), foreground-wait iterations, "
